@@ -167,11 +167,11 @@ class Builder:
             if self.with_rf and r.random() < 0.45:
                 use = r.choice(RF_USES + ['excitation', 'refocusing'])
                 shape = r.choice(['block', 'sinc', 'sinc'])
-                blk['rf'] = {'shape': shape, 'use': use, 'dur': r.randint(2, 60) * 10, 'delay': r.choice([0, 0, 10, 35]),
+                blk['rf'] = {'shape': shape, 'use': use, 'dur': r.randint(2, 25) * 10, 'delay': r.choice([0, 0, 10, 35]),
                              'tbw': r.choice([2, 4]), 'center_pos': r.choice([0.5, 0.5, 0.25, 0.7]),
                              'flip': r.choice([0.3, 1.5707963267948966, 3.141592653589793])}
             elif self.with_adc and r.random() < 0.6:
-                blk['adc'] = {'n': r.randint(1, 24), 'dwell': r.choice([10, 25, 50, 100, 237]),   # units of 100 ns
+                blk['adc'] = {'n': r.randint(1, 16), 'dwell': r.choice([10, 25, 50, 100, 237]),   # units of 100 ns
                               'delay': r.choice([0, 0, 5, 13, 40])}                               # us
             if r.random() < 0.15:
                 blk['delay'] = r.randint(1, 60)
